@@ -29,7 +29,7 @@ ASSUMPTIONS = [
 OPS = ["str", "pairs", "sequence", "dot_bracket", "fcfs", "all_dot_brackets", "elements", "convert_sim",
        "convert_none", "without_pseudoknots", "without_isolated", "eq_fresh", "paired",
        "db_without_pseudoknots", "from_dotbracket", "fcfs_without_pseudoknots", "from_fcfs", "from_listed",
-       "from_string"]
+       "from_string", "convert_other_tie"]
 REBUILDS = ("from_dotbracket", "from_fcfs", "from_listed", "from_string")
 DERIVATIONS = ("without_pseudoknots", "without_isolated")
 PUBLIC_SLOTS = ["sequence", "elements", "dot_bracket", "fcfs", "all_dot_brackets"]
@@ -103,7 +103,8 @@ FAULT_KINDS = ["raise_before", "raise_after_partial", "raise_after_optimal", "st
                "status_undefined", "status_unbounded"]
 API_ASSIGN = ["none", "partial", "full"]
 # answers that depend on what the solver did during (or before) the call
-SOLVER_DEPENDENT = {"dot_bracket", "elements", "convert_sim", "without_pseudoknots", "db_without_pseudoknots"}
+SOLVER_DEPENDENT = {"dot_bracket", "elements", "convert_sim", "convert_other_tie", "without_pseudoknots",
+                    "db_without_pseudoknots"}
 # solver-independent queries: asked again they must answer the same whatever failed in between (a solver-dependent
 # one may legitimately differ when the solver behaved differently the second time - an implementation that does
 # not memoise a fallback answer is not impure)
@@ -179,6 +180,14 @@ def apply_op(env, op, obj, birth):
             raw = obj.elements
         elif op == "convert_sim":
             raw = obj.convert_to_dot_bracket(env.decoy_solver())
+        elif op == "convert_other_tie":
+            # an explicit conversion with a correct solver that breaks ties its own way (another of the optima)
+            saved = (env.faults, env.fault_cursor)
+            env.faults, env.fault_cursor = [dict(env.faults[0], tie=env.faults[0].get("tie", 0) + 1)], 0
+            try:
+                raw = obj.convert_to_dot_bracket(env.decoy_solver())
+            finally:
+                env.faults, env.fault_cursor = saved
         elif op == "convert_none":
             raw = obj.convert_to_dot_bracket(None)
         elif op == "without_pseudoknots":
@@ -229,7 +238,7 @@ def spec_problem(op, answer, birth, solver):
         want = sorted([[i, j] for i, j in pairs] + [[j, i] for i, j in pairs])
         if sorted(answer) != want:
             return ("pairs-are-the-pairs-of-the-structure", want, sorted(answer))
-    elif op in ("dot_bracket", "fcfs", "convert_sim", "convert_none"):
+    elif op in ("dot_bracket", "fcfs", "convert_sim", "convert_none", "convert_other_tie"):
         bad = oracles.lossless_problems(seq, n, pairs, answer[1], answer[2])
         if bad:
             return ("notation-encodes-the-structure", {"sequence": seq, "pairs": sorted(pairs)}, answer)
@@ -329,8 +338,9 @@ def execute_run(run, tmpdir):
         def relaxed_problem(op, answer, obj, birth):
             """Fault-injecting configuration only: what a solver-dependent answer must still satisfy."""
             n, pairs = oracles.pairs_of_triples(birth)
-            if op in ("dot_bracket", "convert_sim"):
-                allowed = [reference(t, "dot_bracket"), ["DotBracket", oracles.sequence_of_triples(birth), oracles.fcfs_ref(n, pairs)]]
+            if op in ("dot_bracket", "convert_sim", "convert_other_tie"):
+                allowed = [reference(t, "dot_bracket"), reference(t, "convert_other_tie"),
+                           ["DotBracket", oracles.sequence_of_triples(birth), oracles.fcfs_ref(n, pairs)]]
                 if answer not in allowed:
                     return ("notation-is-the-optimal-or-the-fcfs-one", allowed, answer)
             if op == "elements" and "dot_bracket" in obj.__dict__:
